@@ -121,6 +121,29 @@ ensures r == (if %s.len() == 3 { Some(bors(%s[2])) } else { None::<BlockOrStmt> 
         ('kind', dict(H, ret='r', spec='ensures r == kind_of_type_token(self.sp_type_token()),      //@C09,C05:type-keyword-table')),
     ])
     U.raw('impl ScalarType { pub uninterp spec fn sp_type_token(&self) -> SyntaxKind; }\n')
+    # ---- time unit of a timing literal: every spelling the lexer / validation accept names its unit (C03: the analyser unwraps the result)
+    e.item('enum', 'TimeUnit')
+    U.raw('''/// the text of an identifier token (node_ext.rs HasTextNode::text -> text_of_first_token; rowan TokenText derefs to str)
+#[verifier::external_body] pub struct TokenText { _p: u8 }
+impl TokenText {
+    pub uninterp spec fn sp_str(&self) -> Seq<char>;
+    #[verifier::external_body] pub fn as_str(&self) -> (r: &str) ensures r@ == self.sp_str() { unimplemented!() }
+}
+impl Identifier {
+    pub uninterp spec fn sp_text(&self) -> Seq<char>;
+    #[verifier::external_body] pub fn text(&self) -> (r: TokenText) ensures r.sp_str() == self.sp_text() { unimplemented!() }
+}
+''', note='Identifier::text / TokenText::as_str (trusted: the text of the identifier token)')
+    g.impl('TimingLiteral', [('identifier', dict(H, ret='r', spec='ensures r == first::<Identifier>(%s),' % KS))])
+    e.impl('ast::TimingLiteral', [('time_unit', dict(props=P, ghost=[('{', 'after', 'proof { reveal_with_fuel(typed, 6); @@STRLIT_FACTS@@ }')], ret='r', strmatch=True, spec='''ensures
+    // each of the seven spellings of a time / imaginary unit names its unit (so the analyser's `time_unit().unwrap()` cannot
+    // fail on a timing literal that passed validation), anything else none
+    ({ let id = first::<Identifier>(%s);
+       id is Some ==> ({ let t = id->Some_0.sp_text();
+        &&& (t == "s"@ ==> r == Some(TimeUnit::Second)) &&& (t == "ms"@ ==> r == Some(TimeUnit::MilliSecond))
+        &&& ((t == "us"@ || t == "µs"@) ==> r == Some(TimeUnit::MicroSecond)) &&& (t == "ns"@ ==> r == Some(TimeUnit::NanoSecond))
+        &&& (t == "dt"@ ==> r == Some(TimeUnit::Cycle)) &&& (t == "im"@ ==> r == Some(TimeUnit::Imaginary)) }) }),      //@C03,C06:time-unit-spellings
+    first::<Identifier>(%s) is None ==> r is None,''' % (KS, KS)))])
     U.assumed_parser = ['IF_STMT children: condition expression (not a block), then-body, optional else-body (if_shape)',
                         'WHILE_STMT children: condition expression (not a block), body (while_shape)',
                         'FOR_STMT children: type, loop variable, iterable, body (for_shape)',
@@ -129,5 +152,5 @@ ensures r == (if %s.len() == 3 { Some(bors(%s[2])) } else { None::<BlockOrStmt> 
     U.assumed_dep = ['rowan: SyntaxNode::children() yields the child nodes in source order; AstChildren<N> / support::child keep those N::cast accepts (cast is by kind; Expr and Stmt kinds disjoint)',
                      'std: Option::and / Option::or / Iterator::nth']
     U.not_verified = ['generated/nodes.rs accessors other than ForStmt::body / ForStmt::stmt (support::child / support::token one-liners)',
-                      'token-based accessors (op_details, Literal::kind, time_unit, pragma_text: string slicing)']
+                      'token-based accessors (op_details, Literal::kind, pragma_text: string slicing)']
     return U
